@@ -754,7 +754,9 @@ class _RState:
                 subs, v, i, top = decode_ragged_dir(p2)
             except DecodeError as e:
                 raise Viol('decoder.copy', str(e).split(':')[0], str(e))
-            if len(subs) != len(self.L) or any(not D.arr_equal(a, b)[0] for a, b in zip(subs, self.L)):
+            srcapi = self.darr.RaggedArray(self.path)
+            src = [np.array(srcapi[k]) for k in range(len(srcapi))]     # what the Darr API reports for the source
+            if len(subs) != len(src) or any(not D.arr_equal(a, b)[0] for a, b in zip(subs, src)):
                 raise Viol('decoder.copy', 'contents', '')
         shutil.rmtree(p2, ignore_errors=True)
         self.probe('copy_checked')
